@@ -11,30 +11,39 @@ import time
 from vmon import fsfault
 
 
+import collections
+
+CALLS = collections.Counter()  # executions of the plan's functions in THIS process (the repair / follow-up runs happen in the parent)
+
+
 def f_b(a):
+    CALLS["b"] += 1
     return {"b_of": a, "n": len(str(a))}
 
 
 def f_c(b):
-    return ("c", b["n"] * 2, sorted(b))
+    CALLS["c"] += 1
+    return ["c", b["n"] * 2, sorted(b)]  # depends on the LENGTH of a only: an update of a can rebuild c to identical content
 
 
 def f_d(a, c):
+    CALLS["d"] += 1
     return [a, list(c)]
 
 
 def f_e(d, b):
+    CALLS["e"] += 1
     return {"e": d, "bn": b["n"]}
 
 
-def build(d, shape):
+def build(d, shape, c_json=False):
     import uberjob
     from uberjob.stores import JsonFileStore, PickleFileStore
 
     plan = uberjob.Plan()
     reg = uberjob.Registry()
     P = lambda n: os.path.join(d, n)
-    stores = {"a": JsonFileStore(P("a.json")), "b": JsonFileStore(P("b.json")), "c": PickleFileStore(P("c.pkl")),
+    stores = {"a": JsonFileStore(P("a.json")), "b": JsonFileStore(P("b.json")), "c": JsonFileStore(P("c.json")) if c_json else PickleFileStore(P("c.pkl")),
               "d": JsonFileStore(P("d.json")), "e": JsonFileStore(P("e.json"))}
     a = reg.source(plan, stores["a"])
     b = plan.call(f_b, a)
@@ -316,8 +325,11 @@ def run_case(desc):
     names = ["a", "b", "c"] + (["d"] if shape >= 1 else []) + (["e"] if shape >= 2 else [])
     initial = rng.choice(["empty", "stale_after_update", "partial"])
     W = rng.choice([1, 2])
-    aval0 = {"v": rng.randint(0, 99), "pad": "x" * rng.randint(0, 30)}
-    aval1 = {"v": rng.randint(100, 199)}
+    c_json = rng.random() < 0.5
+    pad = "x" * rng.randint(0, 30)
+    aval0 = {"v": rng.randint(10, 49), "pad": pad}
+    # half of the updates change the source without changing its length: c (a function of the length only) is rebuilt to IDENTICAL content
+    aval1 = {"v": rng.randint(50, 99), "pad": pad} if rng.random() < 0.5 else {"v": rng.randint(100, 199)}
     base = tempfile.mkdtemp(prefix="vmon-c08f-")
     counters = {"file_cases": 1, "file_cut_positions": 0, "file_cuts_hit": 0, "file_repair_runs": 0, "file_uptodate_checked": 0}
     bad = None
@@ -326,7 +338,7 @@ def run_case(desc):
         # template directory with the initial state
         tmpl = os.path.join(base, "tmpl")
         os.mkdir(tmpl)
-        plan, reg, stores, nodes, deps = build(tmpl, shape)
+        plan, reg, stores, nodes, deps = build(tmpl, shape, c_json)
         stores["a"].write(aval0)
         aval = aval0
         if initial != "empty":
@@ -355,7 +367,7 @@ def run_case(desc):
         pid = os.fork()
         if pid == 0:
             try:
-                plan_, reg_, *_ = build(d, shape)
+                plan_, reg_, *_ = build(d, shape, c_json)
                 pl = fsfault.Plan()
                 with fsfault.Shim(pl, d):
                     uberjob.run(plan_, registry=reg_, progress=None, max_workers=W)
@@ -376,7 +388,7 @@ def run_case(desc):
             pid = os.fork()
             if pid == 0:
                 try:
-                    plan_, reg_, *_ = build(d, shape)
+                    plan_, reg_, *_ = build(d, shape, c_json)
                     pl = fsfault.Plan(k=k, action="exit")
                     with fsfault.Shim(pl, d):
                         try:
@@ -388,7 +400,7 @@ def run_case(desc):
             _, status = os.waitpid(pid, 0)
             if os.WIFEXITED(status) and os.WEXITSTATUS(status) == 137:
                 counters["file_cuts_hit"] += 1
-            plan2, reg2, stores2, nodes2, deps2 = build(d, shape)
+            plan2, reg2, stores2, nodes2, deps2 = build(d, shape, c_json)
             st = state(stores2, names)
             o = ood(st, deps2, names)
             for n in names[1:]:
@@ -421,6 +433,17 @@ def run_case(desc):
                         if not o[n] and st2[n] != st[n]:
                             bad = f"{n} was completely written before the cut at file operation {k}/{K} and nothing upstream changed, yet the repair run rewrote it"
                             break
+                    if bad is None:
+                        # nothing changed since the repair run: one more run performs no call and rewrites nothing
+                        calls0 = dict(CALLS)
+                        uberjob.run(plan2, registry=reg2, progress=None, max_workers=W)
+                        counters["file_silent_rerun_checks"] = counters.get("file_silent_rerun_checks", 0) + 1
+                        if dict(CALLS) != calls0:
+                            again = {k_: CALLS[k_] - calls0.get(k_, 0) for k_ in CALLS if CALLS[k_] != calls0.get(k_, 0)}
+                            bad = (f"a run repeated right after the successful repair run (cut at {k}/{K}) recomputed {again}: values rebuilt to identical "
+                                   f"content must still count as rebuilt")
+                        elif state(stores2, names) != st2:
+                            bad = f"a run repeated right after the successful repair run (cut at {k}/{K}) rewrote files"
                     left = [f for f in os.listdir(d) if f.endswith(".STAGING")]
                     if bad is None and left and any(f[: -len(".STAGING")] in [os.path.basename(stores2[n].path) for n in names if o[n]] for f in left):
                         bad = f"staging files of rebuilt stores left behind after the repair run: {left}"
